@@ -7,6 +7,7 @@ import (
 	"errors"
 	"fmt"
 	"math/big"
+	"os"
 	"path/filepath"
 	"reflect"
 	"sort"
@@ -243,7 +244,7 @@ func init() {
 		if tier == "thorough" {
 			n = c09cells + 1500
 		}
-		return Plan{Runs: n, Enumerated: c09cells, Exhaustive: true, Level: "fault_enumeration", Rule: "runs 0..119 enumerate (fault kind in {db closed, read error, corrupted block, undecodable value, truncated value, store missing after failed swap, shutdown racing the lookup, value of wrong type, value altered inside the serial but still decodable, value of length zero}) x (listed, unlisted) x (backend) x (store level, repository level, validator level) completely (cells that do not exist for a backend are counted as skipped); further runs draw the same with random population sizes, tiny write buffers and schedules; oracle: under a fault that affects the lookup the answer is an error or 'revoked', never (not revoked, nil), and never a panic; the same lookups without the fault are exact"}
+		return Plan{Runs: n, Enumerated: c09cells, Exhaustive: true, Level: "fault_enumeration", Rule: "runs 0..131 enumerate (fault kind in {db closed, read error, corrupted block, table file missing from the database directory, undecodable value, truncated value, store missing after failed swap, shutdown racing the lookup, value of wrong type, value altered inside the serial but still decodable, value of length zero}) x (listed, unlisted) x (backend) x (store level, repository level, validator level) completely (cells that do not exist for a backend are counted as skipped); further runs draw the same with random population sizes, tiny write buffers and schedules; oracle: under a fault that affects the lookup the answer is an error or 'revoked', never (not revoked, nil), and never a panic; the same lookups without the fault are exact"}
 	}, Run: runC09})
 }
 
@@ -524,9 +525,9 @@ func recordOnly(h *Harness, oracle, sig, detail string) {
 
 // ------------------------------------------------------------------------------------------ C09
 
-var c09faults = []string{"db-closed", "read-error", "corrupt-block", "undecodable-value", "truncated-value", "store-missing-after-failed-swap", "shutdown-race", "wrong-type-value", "altered-value", "empty-value"}
+var c09faults = []string{"db-closed", "read-error", "corrupt-block", "undecodable-value", "truncated-value", "store-missing-after-failed-swap", "shutdown-race", "wrong-type-value", "altered-value", "empty-value", "table-file-missing"}
 
-const c09cells = 10 * 2 * 2 * 3
+const c09cells = 11 * 2 * 2 * 3
 
 var c09levels = []string{"store", "repository", "validator"}
 
@@ -557,7 +558,7 @@ func runC09(h *Harness) {
 	applicable := true
 	if backend == "memory" {
 		switch fault {
-		case "db-closed", "read-error", "corrupt-block", "store-missing-after-failed-swap":
+		case "db-closed", "read-error", "corrupt-block", "store-missing-after-failed-swap", "table-file-missing":
 			applicable = false
 		}
 	}
@@ -813,7 +814,7 @@ func c09injectStore(h *Harness, s crlstore.CRLStore, f crlstore.Factory, backend
 	switch fault {
 	case "db-closed":
 		s.(*crlstore.LevelDbStore).Db.Close()
-	case "read-error", "corrupt-block":
+	case "read-error", "corrupt-block", "table-file-missing":
 		ld := s.(*crlstore.LevelDbStore)
 		// move the data into a table file: close and reopen replays the journal
 		ld.Db.Close()
@@ -827,7 +828,21 @@ func c09injectStore(h *Harness, s crlstore.CRLStore, f crlstore.Factory, backend
 			panic(err)
 		}
 		ld.Db = ns.(*crlstore.LevelDbStore).Db
-		if fault == "read-error" {
+		if fault == "table-file-missing" {
+			// the table files are gone from the directory (a lost file: a clean-up script, a restored backup without
+			// them): the first lookup that needs one cannot open it
+			ents, _ := os.ReadDir(ld.LevelDBPath)
+			gone := 0
+			for _, e := range ents {
+				if strings.HasSuffix(e.Name(), ".ldb") {
+					os.Remove(filepath.Join(ld.LevelDBPath, e.Name()))
+					gone++
+				}
+			}
+			if gone > 0 {
+				h.Probe("table-file-missing:removed")
+			}
+		} else if fault == "read-error" {
 			h.Disk.StReadBad = func(n int, file string, off int64, p []byte) error { return ErrIO }
 		} else {
 			// bit rot inside a table block: where the victim's stored key is visible in the block, its last byte is hit
